@@ -344,7 +344,12 @@ impl Core {
         // Seed the query either with the closest nodes from the routing table, or the
         // bootstrapping nodes if the closest nodes are not enough.
         let candidates = query.closest();
-        if candidates.is_empty() || candidates.len() < self.bootstrap.len() {
+        // An empty routing table means we are (re)bootstrapping: cached nodes alone (possibly
+        // just ourselves) must not keep us from asking the bootstrapping nodes.
+        if candidates.is_empty()
+            || candidates.len() < self.bootstrap.len()
+            || self.routing_table.is_empty()
+        {
             for bootstrapping_node in self.bootstrap.clone() {
                 to_visit.push(bootstrapping_node)
             }
